@@ -25,7 +25,7 @@ type target struct {
 	ret    string // Lean result type ("" = Bool)
 	arith  string // integer arithmetic of non-constant operands: "" / "u32" (wraps mod 2^32), "u64" (wraps mod 2^64), "nat" (Go int assumed non-negative, no overflow; subtraction unsupported)
 	except bool   // the last Go result is an error: `nil` -> .ok (other results), an error variable -> .error "Name"
-	kind   string // "" = whole function body; "bftGuards", "prevoteThreshold", "commitGuards" = fragment extraction (see below)
+	kind   string // "" = whole function body; "weightLoop", "bftGuards", "prevoteThreshold", "commitGuards" = fragment extraction (see below)
 }
 
 var targets = []target{
@@ -40,6 +40,7 @@ var targets = []target{
 	{file: "pkg/consensus/liskbft/api.go", recv: "API", name: "HeaderHasPriority", lean: "headerHasPriority", params: "(header : Hdr) (height maxHeightPrevoted maxHeightPreviouslyForged : Nat)"},
 	{file: "pkg/codec/reader.go", name: "varintShortestSize", lean: "varintShortestSize", params: "(data : Nat)", ret: "Nat", arith: "u64"},
 	{file: "pkg/codec/key.go", name: "readKey", lean: "readKey", params: "(val : Nat)", ret: "Except String (Nat × Nat)", arith: "nat", except: true},
+	{file: "pkg/consensus/liskbft/api.go", recv: "API", name: "SetBFTParameters", lean: "aggregateBFTWeightStep", params: "(aggregateBFTWeight bftWeight : Nat)", ret: "Nat × Nat", arith: "u64", kind: "weightLoop"},
 	{file: "pkg/consensus/liskbft/api.go", recv: "API", name: "SetBFTParameters", lean: "setBFTParametersGuards", params: "(aggregateBFTWeight precommitThreshold certificateThreshold : Nat)", arith: "u64", kind: "bftGuards"},
 	{file: "pkg/consensus/liskbft/api.go", recv: "API", name: "SetBFTParameters", lean: "prevoteThresholdOf", params: "(aggregateBFTWeight : Nat)", ret: "Nat", arith: "u64", kind: "prevoteThreshold"},
 	{file: "pkg/consensus/certificate.go", recv: "Executer", name: "verifyAggregateCommit", lean: "aggregateCommitGuards", params: "(empty : Bool) (height mhc mhpc : Nat) (nextFound : Bool) (heightNext : Nat) (bitsEmpty sigEmpty : Bool)", ret: "Nat", arith: "u32", kind: "commitGuards"},
@@ -218,6 +219,12 @@ func (t *tr) expr(e ast.Expr) string {
 				return "(" + a + " / " + b + ")"
 			}
 			return t.fail(e, "division by a non-constant")
+		case token.REM:
+			// remainder by a non-zero constant only
+			if isConstExpr(x.Y) && b != "0" {
+				return "(" + a + " % " + b + ")"
+			}
+			return t.fail(e, "remainder by a non-constant")
 		case token.AND:
 			return "(" + a + " &&& " + b + ")"
 		case token.SHR:
@@ -445,6 +452,98 @@ func guardReturn(is *ast.IfStmt) string {
 	return ""
 }
 
+// weightLoop: the loop of API.SetBFTParameters that sums the BFT weights,
+//
+//	aggregateBFTWeight := uint64(0)
+//	for _, validator := range validators { guards…; aggregateBFTWeight += validator.bftWeight }
+//
+// as a step function on (accumulator, weight of the current validator): the 1-based index of the first
+// guard `if cond { return fmt.Errorf(…) }` that fires (0 = none) and the new accumulator.
+func (t *tr) weightLoop(fd *ast.FuncDecl) (string, string, string) {
+	const acc = "aggregateBFTWeight"
+	var loop *ast.RangeStmt
+	init := ""
+	for _, s := range fd.Body.List {
+		switch x := s.(type) {
+		case *ast.AssignStmt:
+			if len(x.Lhs) == 1 && len(x.Rhs) == 1 {
+				if id, ok := x.Lhs[0].(*ast.Ident); ok && id.Name == acc {
+					if init != "" || loop != nil || x.Tok != token.DEFINE {
+						return t.fail(s, "second assignment to "+acc), "", ""
+					}
+					if !isConstExpr(stripConv(x.Rhs[0])) {
+						return t.fail(s, "initial value of "+acc+" is not a constant"), "", ""
+					}
+					init = t.expr(x.Rhs[0])
+				}
+			}
+		case *ast.RangeStmt:
+			if mentions(x.Body, acc) {
+				if loop != nil {
+					return t.fail(s, "second loop over "+acc), "", ""
+				}
+				loop = x
+			}
+		}
+	}
+	if loop == nil || init == "" {
+		return t.fail(fd, "loop summing "+acc+" (with its initialisation) not found"), "", ""
+	}
+	if id, ok := loop.X.(*ast.Ident); !ok || id.Name != "validators" {
+		return t.fail(loop, "loop does not range over validators"), "", ""
+	}
+	val, ok := loop.Value.(*ast.Ident)
+	if !ok {
+		return t.fail(loop, "loop without value variable"), "", ""
+	}
+	t.subst = map[string]string{val.Name + ".bftWeight": "bftWeight"}
+	t.allowed = map[string]bool{acc: true}
+	conds := []string{}
+	update := ""
+	for _, s := range loop.Body.List {
+		if update != "" {
+			return t.fail(s, "statement after the update of "+acc), "", ""
+		}
+		switch x := s.(type) {
+		case *ast.IfStmt:
+			if guardReturn(x) != "errorf" {
+				return t.fail(s, "loop statement that is not a guard returning fmt.Errorf"), "", ""
+			}
+			conds = append(conds, t.expr(x.Cond))
+		case *ast.AssignStmt:
+			id, ok := x.Lhs[0].(*ast.Ident)
+			if len(x.Lhs) != 1 || len(x.Rhs) != 1 || !ok || id.Name != acc || x.Tok != token.ADD_ASSIGN {
+				return t.fail(s, "loop assignment other than "+acc+" += …"), "", ""
+			}
+			update = t.expr(&ast.BinaryExpr{X: x.Lhs[0], OpPos: x.TokPos, Op: token.ADD, Y: x.Rhs[0]})
+		default:
+			return t.fail(s, fmt.Sprintf("statement %T in the weight loop", s)), "", ""
+		}
+	}
+	if update == "" {
+		return t.fail(loop, "update of "+acc+" not found"), "", ""
+	}
+	body := ""
+	indent := "  "
+	for i, c := range conds {
+		body += fmt.Sprintf("%sif %s then\n%s  (%d, %s)\n%selse\n", indent, c, indent, i+1, acc, indent)
+		indent += "  "
+	}
+	body += indent + "(0, " + update + ")"
+	extra := fmt.Sprintf("/-- initial value of the accumulator of the weight loop of `SetBFTParameters` -/\ndef aggregateBFTWeightInit : Nat := %s\n\n", init)
+	return body, " — body of the loop `for _, validator := range validators` that sums the BFT weights: (index of the first guard `if … { return fmt.Errorf(…) }` that fires, 0 = none; new aggregateBFTWeight) (uint64 arithmetic)", extra
+}
+
+// stripConv removes integer conversions uint64(x) etc.
+func stripConv(e ast.Expr) ast.Expr {
+	if ce, ok := e.(*ast.CallExpr); ok && len(ce.Args) == 1 {
+		if id, ok := ce.Fun.(*ast.Ident); ok && (id.Name == "uint32" || id.Name == "int" || id.Name == "uint64") {
+			return stripConv(ce.Args[0])
+		}
+	}
+	return e
+}
+
 // bftGuards: the top-level statements `if <cond mentioning aggregateBFTWeight> { return fmt.Errorf(…) }`
 // of API.SetBFTParameters (exactly two: precommit and certificate threshold); result = both pass.
 func (t *tr) bftGuards(fd *ast.FuncDecl) (string, string) {
@@ -646,6 +745,8 @@ func main() {
 		switch tg.kind {
 		case "":
 			body = t.stmts(fd.Body.List, "  ")
+		case "weightLoop":
+			body, note, extra = t.weightLoop(fd)
 		case "bftGuards":
 			body, note = t.bftGuards(fd)
 		case "prevoteThreshold":
